@@ -100,7 +100,14 @@ C15_DeepOld == {SD("dict", NoVal, <<<<C15_KA, C15_Chain(SD("list", NoVal, <<<<IK
 C15_DeepNew == {SD("dict", NoVal, <<<<C15_KA, WithTag(C15_Chain(leaf), t)>>>>) :
                    leaf \in {SD("list", NoVal, <<<<IKey(0), C15_L("9")>>>>), SD("dict", NoVal, <<<<SKey("p"), C15_L("9")>>>>)},
                    t \in {"none", "merge", "del"}}
-C15_DocsDeep  == SetToSeq(C15_DeepOld) \o SetToSeq(C15_DeepNew)
-C15_RangeDeep == << <<1, Cardinality(C15_DeepOld)>>, <<Cardinality(C15_DeepOld) + 1, Cardinality(C15_DeepOld) + Cardinality(C15_DeepNew)>> >>
+\* a prioritised older list against a LONGER plain newer list: the surplus items lose as well - also when a marker sits on an
+\* ancestor (F24: the items of a list below a tagged node did not inherit the list's deleting default)
+C15_LongOld == {SD("dict", NoVal, <<<<C15_KA, WithTag(SD("list", NoVal, <<<<IKey(0), C15_L("1")>>, <<IKey(1), C15_L("2")>>>>), "force")>>>>),
+                SD("dict", NoVal, <<<<C15_KA, SD("dict", NoVal, <<<<C15_KB, WithTag(SD("list", NoVal, <<<<IKey(0), C15_L("1")>>>>), "force")>>>>)>>>>)}
+C15_LongNew == {SD("dict", NoVal, <<<<C15_KA, SD("list", NoVal, <<<<IKey(0), C15_L("9")>>, <<IKey(1), C15_L("9")>>, <<IKey(2), C15_L("9")>>>>)>>>>),
+                SD("dict", NoVal, <<<<C15_KA, SD("dict", NoVal, <<<<C15_KB, SD("list", NoVal, <<<<IKey(0), C15_L("9")>>, <<IKey(1), C15_L("9")>>>>)>>>>)>>>>)}
+C15_DocsDeep  == SetToSeq(C15_DeepOld \cup C15_LongOld) \o SetToSeq(C15_DeepNew \cup C15_LongNew)
+C15_RangeDeep == << <<1, Cardinality(C15_DeepOld \cup C15_LongOld)>>,
+                    <<Cardinality(C15_DeepOld \cup C15_LongOld) + 1, Cardinality(C15_DeepOld \cup C15_LongOld) + Cardinality(C15_DeepNew \cup C15_LongNew)>> >>
 
 =============================================================================
